@@ -667,10 +667,18 @@ def run(ctx):
             sys.stderr.write("[c14] %-28s %6.1fs\n" % (what, time.time() - t0))
 
     # 1. TLC: the scheduling model implies the property-level invariants for every tree / pop order
-    ctx.model_check("MC_C14", "MC_quick.cfg" if quick else "MC_thorough.cfg", name="bp-schedules",
-                    require_actions=ACTIONS, timeout=1500)
-    selftests = [("MC_damped.cfg", "ConvergedExact", "KF-C14-4: damping with local convergence, run() reports convergence with a message part of the way")]
-    if not quick:
+    # (QV_C14_FAST=1, development only: a reduced model run - the models do not depend on quimb - so that
+    #  mutation runs against a worktree spend their time on the conformance part)
+    fast = bool(os.environ.get("QV_C14_FAST"))
+    ctx.model_check("MC_C14", "MC_damped_repaired_quick.cfg" if fast else ("MC_quick.cfg" if quick else "MC_thorough.cfg"),
+                    name="bp-schedules", require_actions=ACTIONS if not fast else (), timeout=1500)
+    if fast:
+        selftests = []
+    else:
+        selftests = None
+    if selftests is None:
+        selftests = [("MC_damped.cfg", "ConvergedExact", "KF-C14-4: damping with local convergence, run() reports convergence with a message part of the way")]
+    if not quick and not fast:
         selftests += [("MC_bug_marksrc.cfg", None, "a changed message marks its sender instead of its receiver"),
                       ("MC_bug_noretouch.cfg", None, "an empty touched set is not refilled")]
     for cfg, inv, what in selftests:
@@ -679,11 +687,12 @@ def run(ctx):
             raise MachineryError("model self-test %s: expected a violated invariant %s, got %s" % (cfg, inv or "", rr.violated))
         ctx.extra.setdefault("model_selftests", []).append("%s: TLC finds a counterexample to %s (%s)" % (cfg, rr.violated, what))
     # the smallest repair of KF-C14-4 (a moved damped message is re-marked itself) satisfies the invariants
-    ctx.model_check("MC_C14", "MC_damped_repaired_quick.cfg" if quick else "MC_damped_repaired.cfg", name="damping-repaired",
-                    require_actions=("UpdateSequentialA", "UpdateParallel", "LocalConvergenceSkip", "HyperIterate"), timeout=900)
-    ctx.model_check("MC_C14Exact", "MC_exact_quick.cfg" if quick else "MC_exact_thorough.cfg", name="reference-definitions",
-                    require_actions=("Check",), timeout=1500)
-    if not quick:
+    if not fast:
+        ctx.model_check("MC_C14", "MC_damped_repaired_quick.cfg" if quick else "MC_damped_repaired.cfg", name="damping-repaired",
+                        require_actions=("UpdateSequentialA", "UpdateParallel", "LocalConvergenceSkip", "HyperIterate"), timeout=900)
+        ctx.model_check("MC_C14Exact", "MC_exact_quick.cfg" if quick else "MC_exact_thorough.cfg", name="reference-definitions",
+                        require_actions=("Check",), timeout=1500)
+    if not quick and not fast:
         ctx.model_check("MC_C14Exact", "MC_exact_signed.cfg", name="reference-definitions-signed",
                         require_actions=("Check",), timeout=1500)
 
